@@ -24,6 +24,11 @@ theorem norm_sound (t : Tree (Outcome Term)) : ∀ I : Interp, (norm [] t).eval 
   intro I
   simp [Tree.eval, norm_nil_run]
 
+/-- the normal form the checker compares: on every path of a normalised tree no literal query is asked and no query is asked twice
+    ("a term's truthiness is asked at most once per path") -/
+theorem norm_asks_once (t : Tree (Outcome Term)) : noRepeat [] (norm [] t) = true := by
+  simpa using norm_noRepeat t []
+
 /-- THE soundness theorem of the checker: an accepted (bytecode, AST) pair has the same outcome — returned / yielded value,
     loops entered with the same iterables and targets, same loop continued — for every value of the free names, every meaning of
     the operators, calls, attributes and subscripts, and every truth function. -/
@@ -64,7 +69,7 @@ def astEqNotOr : Expr := .cmp (.atom 2) (.last (.named "==") (.boolop true (.not
 def codeGenEqAnd : List Instr :=
   [.load 0, .forIter, .store 1, .load 2, .load 3, .copy 1, .jumpIf false 9, .popTop, .load 4, .cmp (.named "=="),
    .jumpIf true 12, .jumpBack 1, .load 1, .yieldValue, .popTop, .jumpBack 1]
-def genOf (cond : Expr) : Top := .gen (.atom 1) [{ targets := [1], iter := .atom 0, ifs := [cond] }]
+def genOf (cond : Expr) : Top := .gen (.atom 1) [{ targets := [2], iter := .atom 0, ifs := [cond] }]
 
 example : check codeLamEqAnd (.lam astEqAnd) = true := by decide
 example : check codeGenEqAnd (genOf astEqAnd) = true := by decide
@@ -107,7 +112,7 @@ mixes `not` with and/or, in value context (atoms: 0 = `.0`, 1 = x, 2 = a, 3 = b,
 def codeGenIfeOrNot : List Instr :=
   [.load 0, .forIter, .store 1, .load 2, .jumpIf true 7, .load 3, .jumpIf true 9, .load 4, .jump 10, .load 5,
    .yieldValue, .popTop, .jumpBack 1]
-def genElt (e : Expr) : Top := .gen e [{ targets := [1], iter := .atom 0, ifs := [] }]
+def genElt (e : Expr) : Top := .gen e [{ targets := [2], iter := .atom 0, ifs := [] }]
 def astIfeOrNot : Expr := .ife (.boolop true (.atom 2) (.cons (.not (.atom 3)) .nil)) (.atom 4) (.atom 5)
 /-- what the decompiler returns: `c if not (a or b) else d` -/
 def astIfeNotOr : Expr := .ife (.not (.boolop true (.atom 2) (.cons (.atom 3) .nil))) (.atom 4) (.atom 5)
